@@ -657,7 +657,11 @@ func (r *runner) invoke(ctx context.Context, s M, ret M) {
 			_ = r.conn.Close()
 		}
 	case "DialV2": // the library's own dialler (hook-free): an unusable address fails, a loopback address succeeds
-		c, err := bmc.DialV2(args["addr"].(string))
+		var dopts []bmc.DialConfigOption
+		if tm, ok := args["timeoutMs"]; ok {
+			dopts = append(dopts, bmc.WithTimeout(time.Duration(num(tm))*time.Millisecond))
+		}
+		c, err := bmc.DialV2(args["addr"].(string), dopts...)
 		setErr(err)
 		if err == nil {
 			r.extra = append(r.extra, c)
